@@ -125,6 +125,9 @@ def sensitivity(a):
         mp = os.path.join(sdir, d, "meta.json")
         if os.path.exists(mp):
             meta = json.load(open(mp))
+            if meta.get("not_caught"):
+                print(f"({d}: skipped, recorded as not caught: {meta.get('why_not_caught', '')[:120]}...)", flush=True)
+                continue
             if meta.get("obsolete"):
                 print(f"({d}: skipped, neutralised by a later fix: commit in meta.json)", flush=True)
                 continue
